@@ -1384,13 +1384,33 @@ def _strfn(f: Callable[..., Any]) -> Callable[..., Any]:
     def g(*a: Any) -> Any:
         if not all(isinstance(x, (str, int)) for x in a):
             raise Undecided("string function on abstract value")
-        return f(*a)
+        try:
+            return f(*a)
+        except (ValueError, TypeError, OverflowError) as ex:
+            raise Raised(f"{type(ex).__name__}({ex})")
 
     return g
 
 
+def _unk(x: Any) -> Any:
+    """plain data with the analyser's int subclasses turned back into ints (for str()/repr())"""
+    if isinstance(x, bool) or x is None or isinstance(x, (str, float)):
+        return x
+    if isinstance(x, int):
+        return int(x)
+    if isinstance(x, list):
+        return [_unk(y) for y in x]
+    if isinstance(x, tuple):
+        return tuple(_unk(y) for y in x)
+    return x
+
+
 def _int(x: Any, *base: Any) -> int:
     if isinstance(x, (int, bool)) and not base:
+        return int(x)
+    if isinstance(x, float) and not base:
+        if x != x or x in (float("inf"), float("-inf")):
+            raise Raised("ValueError(cannot convert float NaN or infinity to integer)")
         return int(x)
     if isinstance(x, str) and all(isinstance(b, int) for b in base):
         try:
@@ -1488,13 +1508,22 @@ BUILTINS: Dict[str, Callable[..., Any]] = {
     "int": lambda x, *b: _int(x, *b),
     "bool": lambda x=False: bool(x) if isinstance(x, (int, bool, str, list, tuple, dict, set, frozenset, float, type(None))) else
     (_ for _ in ()).throw(Undecided("bool()")),
-    "str": lambda x: (str(bool(x)) if isinstance(x, bool) else str(int(x)) if isinstance(x, int) else x) if isinstance(x, (int, str)) else
-    (_ for _ in ()).throw(Undecided("str()")),
+    "str": lambda x="": (str(bool(x)) if isinstance(x, bool) else str(int(x)) if isinstance(x, int) else x) if isinstance(x, (int, str)) else
+    (str(_unk(x)) if x is None or isinstance(x, float) or (isinstance(x, (list, tuple)) and _plain(x)) else (_ for _ in ()).throw(Undecided("str()"))),
+    "repr": lambda x: repr(_unk(x)) if (_plain(x) or isinstance(x, float)) else (_ for _ in ()).throw(Undecided("repr()")),
+    "round": lambda x, *nd: round(x, *nd) if isinstance(x, (int, float)) and not isinstance(x, bool) and all(isinstance(k, int) for k in nd) else
+    (_ for _ in ()).throw(Undecided("round()")),
+    "math.ceil": lambda x: __import__("math").ceil(x) if isinstance(x, (int, float)) and not isinstance(x, bool) else (_ for _ in ()).throw(Undecided("math.ceil")),
+    "math.floor": lambda x: __import__("math").floor(x) if isinstance(x, (int, float)) and not isinstance(x, bool) else (_ for _ in ()).throw(Undecided("math.floor")),
+    "math.isqrt": lambda x: __import__("math").isqrt(x) if isinstance(x, int) and not isinstance(x, bool) and x >= 0 else (_ for _ in ()).throw(Undecided("math.isqrt")),
+    "float": lambda x=0.0: float(x) if isinstance(x, (int, float)) and not isinstance(x, bool) else (_strfn(float)(x) if isinstance(x, str) else (_ for _ in ()).throw(Undecided("float()"))),
     "dict": lambda *a, **k: dict(*a, **k),
     "set": lambda *a: set(*a),
     "slice": lambda *a: slice(*a),
     "re.compile": _strfn(_re.compile),
     "hex": _strfn(hex),
+    "bin": _strfn(bin),
+    "oct": _strfn(oct),
     "np.base_repr": lambda v, base=2: _base_repr(v, base),
     "numpy.base_repr": lambda v, base=2: _base_repr(v, base),
     "ord": _strfn(ord),
